@@ -336,6 +336,7 @@ func freshRelID(r *Run, onlyKind string, min int) {
 	lits := collectRelLiterals(p)
 	sl := newSlicer(p)
 	n := 0
+	existingLits := map[*relLiteral]bool{}
 	for _, rl := range lits {
 		if rl.Via != nil && rl.IDArg == nil {
 			continue // per-call-site copy of a helper's literal: the helper's own literal is checked
@@ -410,6 +411,7 @@ func freshRelID(r *Run, onlyKind string, min int) {
 		if rl.IDArg != nil {
 			idVal = rl.IDArg
 		}
+		existingLits[rl] = true
 		res := sl.Slice(idVal)
 		dep := res.readsField(p, pkgDoc, "Relationship", "ID")
 		fp := res.fingerprint(p)
@@ -439,7 +441,7 @@ func freshRelID(r *Run, onlyKind string, min int) {
 		return false
 	}
 	for _, rl := range lits {
-		if !rl.Appended || (rl.Via != nil && rl.IDArg == nil) || (rl.Via == nil && rl.Specialised) {
+		if !(rl.Appended || existingLits[rl]) || (rl.Via != nil && rl.IDArg == nil) || (rl.Via == nil && rl.Specialised) {
 			continue
 		}
 		idVal := rl.ID.Val
@@ -457,11 +459,11 @@ func freshRelID(r *Run, onlyKind string, min int) {
 			if fv == nil {
 				continue
 			}
-			if b, ok := fv.Type().Underlying().(*types.Basic); !ok || b.Info()&types.IsInteger == 0 {
+			if b, ok := fv.Type().Underlying().(*types.Basic); !ok || b.Info()&(types.IsInteger|types.IsString) == 0 {
 				continue
 			}
 			o := fieldOwner(p, fv)
-			if o == nil || o.Obj().Pkg() == nil || !strings.HasPrefix(o.Obj().Pkg().Path(), modPath) {
+			if o == nil || o.Obj().Pkg() == nil || !strings.HasPrefix(o.Obj().Pkg().Path(), modPath) || o.Obj().Name() == "Relationship" {
 				continue
 			}
 			loaded := false
@@ -485,7 +487,7 @@ func freshRelID(r *Run, onlyKind string, min int) {
 				for _, b := range as {
 					if !b.fields[fv] {
 						r.Check("fresh-dep", fmt.Sprintf("relid-scheme:%s:%s", shortName(a.rl.Fn), fv.Name()), a.rl.ID.Pos(), false,
-							fmt.Sprintf("%s takes the id of a new relationship in %s from the stored counter %s, but %s adds relationships to the same list without that counter (it scans the list): the counter falls behind and a later id repeats one already in the list",
+							fmt.Sprintf("%s takes the id of a new relationship in %s from the stored field %s (state kept between calls), but %s adds relationships to the same list without consulting or advancing it: the stored value falls behind the list and an id is handed out twice",
 								shortName(a.rl.Fn), list, fv.Name(), shortName(b.rl.Fn)))
 						break
 					}
